@@ -125,6 +125,8 @@ class Build:
         self.driver_ok = True
         self.errors: list[dict] = []  # {"file","line","msg","theorem"}
         self.log = ""
+        self.pre = None
+        self.audit = {}
 
 
 def lake_build(targets: list[str], timeout=1500) -> tuple[int, str]:
@@ -146,13 +148,33 @@ def enclosing_decl(path: Path, line: int) -> str | None:
     return None
 
 
-def build(prop_module: str) -> Build:
-    """`lake build` the property module and the driver; collect broken declarations."""
+def build(prop_module: str, pre=None, audit_of=None) -> Build:
+    """`lake build` the property module and the driver; collect broken declarations.
+    `pre()` (the translator) runs under the same lock, and the driver binary is copied to a
+    private path before the lock is released, so concurrent checks against different
+    repositories (VERIF_REPO) cannot see each other's generated files."""
+    global DRIVER
     b = Build()
     with lean_lock():
+        if pre is not None:
+            b.pre = pre()
         subprocess.run([sys.executable, str(ROOT / "tools" / "gen_driver.py")], check=False)
         rc, log = lake_build([prop_module])
         rc2, log2 = lake_build(["verif-driver"])
+        if rc2 == 0:
+            import atexit, shutil
+            priv = LEAN / ".lake" / "build" / "bin" / f"verif-driver.{os.getpid()}"
+            try:
+                shutil.copy2(LEAN / ".lake" / "build" / "bin" / "verif-driver", priv)
+                DRIVER = priv
+                atexit.register(lambda: priv.exists() and priv.unlink())
+            except OSError:
+                pass
+        if rc == 0 and audit_of is not None:
+            try:
+                b.audit = audit(*audit_of)
+            except Exception as ex:  # noqa
+                b.audit = {t: {"ok": False, "axioms": None, "why": f"audit failed: {ex!r}"} for t in audit_of[1]}
     b.log = log + log2
     if rc2 != 0:
         b.driver_ok = False
